@@ -9,6 +9,7 @@ mod address;
 mod sendall;
 mod sets;
 mod fixedtx;
+mod mdjson;
 mod codec;
 mod parse;
 
@@ -32,6 +33,7 @@ fn main() {
         "fixedtx" => fixedtx::main(&a),
         "codec" => codec::main(&a),
         "parse" => parse::main(&a),
+        "json" => mdjson::main(&a),
         d => {
             eprintln!("unknown driver {}", d);
             std::process::exit(2);
